@@ -20,6 +20,7 @@ Layout inside workdir:
 """
 import json
 import os
+import shutil
 import subprocess
 
 from . import e2, gen_java, idl
@@ -74,7 +75,8 @@ def build(case, workdir, idlc, *, ifaces=None, valuations=3, seed=0):
     src = os.path.join(workdir, "src")
     cgen = os.path.join(workdir, "classes", "gen")
     char = os.path.join(workdir, "classes", "harness")
-    for d in (idl_root, gdir, src, cgen, char):
+    for d in (idl_root, gdir, src, cgen, char):      # a workdir may be reused: only rt/ survives
+        shutil.rmtree(d, ignore_errors=True)
         os.makedirs(d, exist_ok=True)
     idl.render_case(case, idl_root)
     env = e2._quiet_env()
